@@ -214,3 +214,10 @@ def r3_scanner(c1: int, c2: int, c3: int) -> bool:
         return False
     end, (label, dest, title, dest_type, title_delim) = got
     return (label, dest, title, end) == ref
+
+
+def witness_paren_title():
+    """(fixed) a parenthesised title accepted an unescaped '(' : '[a]: /u' + '(()' swallowed the second line"""
+    import mistletoe
+    out = mistletoe.markdown('[a]: /u\n(()\n\n[a]\n')
+    return '(()' not in out, "markdown('[a]: /u\\n(()\\n\\n[a]') = %r" % out
